@@ -327,7 +327,7 @@ func randomRequests(c *vh.Ctx, n int) []*baseReq {
 		} else {
 			for k, f := range []*descriptorpb.FileDescriptorProto{p2, p3, ed} {
 				// package names chosen to collide after cleaning: import aliases get numeric suffixes
-				inst = append(inst, instantiate(f, fmt.Sprintf("zz.r%d", i), fmt.Sprintf("example.com/zz/r%d/p%d/pkg", i, k), "pkg", id))
+				inst = append(inst, instantiate(f, fmt.Sprintf("zz.r%d", i), fmt.Sprintf("example.com/zz/r%d/p%d/pkg", i, k), "pkg", id, 50000))
 			}
 		}
 		if _, err := validate(inst); err != nil {
